@@ -406,6 +406,11 @@ func c15Interactive(c *core.Ctx, bounds *[]string) {
 				if err != nil {
 					return nil
 				}
+				if !strings.Contains(got, "OUT:END") && !strings.Contains(script, "\nexit\n") {
+					// the session did not get to its last line within the harness's patience (a loaded machine): no verdict
+					notCase = true
+					return nil
+				}
 				if got != whole {
 					return &core.Viol{Class: "interactive-differs", Detail: fmt.Sprintf("typed a line at a time the script printed %q, evaluated as a file %q", got, whole), Case: cs, FindText: script}
 				}
